@@ -148,6 +148,7 @@ pub fn make_koto(req: &ExecRequest) -> (Koto, OutputCapture) {
         },
     };
     let koto = Koto::with_settings(settings);
+    crate::probe::install(koto.prelude());
     if let Some(Value::Object(o)) = &req.inject {
         for (k, v) in o {
             koto.prelude().insert(k.as_str(), json_to_kvalue(v));
